@@ -443,6 +443,62 @@ def daemonRun (sub : Bool) : Option (List Fn) → Server → List CycleIn → Li
       let rest := daemonRun sub r.2 r.1.server cs
       ((c, r.1) :: rest.1, rest.2)
 
+/-- What `patch_obj` hands back to its caller: `(patched_body, remaining_patch)`. A vanished object gives
+    `(None, None)` — and so does a call that sent nothing at all (`patched_body` stays `None`). -/
+def Outcome.returned : Outcome → Option (Option Obj × Option (List Fn))
+  | .ok rem body => some (body, rem)
+  | .gone => some (none, none)
+  | .raised => none
+
+/-! ### several daemons/timers of one object, interleaved
+
+  Each daemon/timer `d` of an object owns ONE `Patch` object at a time (`spawn_daemons` makes one per handler;
+  `_daemon/_timer` replace it by `Patch(remaining_patch, body=body)` after every delivery). A handler invocation
+  mutates its own patch while it runs (`write`), possibly across awaits during which other daemons write to and
+  deliver THEIR patches; after the invocation the runner delivers the patch (`deliver`). -/
+
+structure DaemonsState where
+  server : Server
+  fields : String → Kvs          -- the dict part of the Patch object daemon `d` holds now
+  fns : String → List Fn         -- its fns: what remained of `d`'s last delivery ++ what `d`'s invocation appended
+
+inductive DLabel where
+  /-- the running invocation of `d` mutates its patch: any change of the dict, some fns appended -/
+  | write (d : String) (upd : Kvs → Kvs) (fns : List Fn)
+  /-- `patch_and_check(patch=cause.patch, body=body)` + `cause.patch = Patch(remaining_patch, body=body)` -/
+  | deliver (d : String) (orig : Obj) (env : Env)
+
+def DLabel.daemon : DLabel → String
+  | .write d _ _ => d
+  | .deliver d _ _ => d
+
+def setAt {α : Type} (f : String → α) (d : String) (v : α) : String → α := fun x => if x = d then v else f x
+
+/-- one step; for a delivery also the patch that was handed to `patch_obj` and the result -/
+def dstep (sub : Bool) (st : DaemonsState) : DLabel → DaemonsState × Option (Patch × Result)
+  | .write d upd fns =>
+      ({ st with fields := setAt st.fields d (upd (st.fields d)), fns := setAt st.fns d (st.fns d ++ fns) }, none)
+  | .deliver d orig env =>
+      let p : Patch := ⟨st.fields d, st.fns d⟩
+      if p.isEmpty then (st, some (p, ⟨[], st.server, .ok none none⟩))      -- `if patch:` — nothing to send
+      else
+        let r := patchObj sub p orig env st.server
+        match r.outcome with
+        | .raised => ({ st with server := r.server }, some (p, r))          -- the exception leaves `cause.patch` as it is
+        | .ok rem _ => ({ server := r.server, fields := setAt st.fields d [], fns := setAt st.fns d (rem.getD []) }, some (p, r))
+        | .gone => ({ server := r.server, fields := setAt st.fields d [], fns := setAt st.fns d [] }, some (p, r))
+
+def drun (sub : Bool) : DaemonsState → List DLabel → DaemonsState
+  | st, [] => st
+  | st, l :: ls => drun sub (dstep sub st l).1 ls
+
+/-- what daemon `d`'s own invocation wrote, in order — the writes of the others and everybody else's
+    deliveries skipped -/
+def ownAcc (d : String) : Kvs × List Fn → List DLabel → Kvs × List Fn
+  | a, [] => a
+  | a, .write d' upd fns :: ls => if d' = d then ownAcc d (upd a.1, a.2 ++ fns) ls else ownAcc d a ls
+  | a, .deliver _ _ _ :: ls => ownAcc d a ls
+
 /-- quiet environment: no slips, no faults -/
 def Env.quiet : Env := { slips := fun _ => [], faults := fun _ => .none }
 
